@@ -93,7 +93,7 @@ def build_prdata(sc, repo=REPO, data_root=None, bname='b'):
         raise BuildError('prdata failed (exit %d): %s %s' % (p.returncode, p.stdout[-2000:], p.stderr[-2000:]))
     return out
 
-def build_lib(sc, repo=REPO, san='address,undefined', opt='-O1', extra=(), tag='san'):
+def build_lib(sc, repo=REPO, san='address,undefined', opt='-O1', extra=(), tag='san', cc='clang-14'):
     """compile libxrl sources (+ generated tables) into objects; returns list of objects and flags."""
     bdir = sc.path('b')
     inline = os.path.join(bdir, 'xrayglob_inline.c')
@@ -101,13 +101,13 @@ def build_lib(sc, repo=REPO, san='address,undefined', opt='-O1', extra=(), tag='
     fl = cflags(repo, bdir) + [opt, '-g', '-w', '-fno-omit-frame-pointer'] + list(extra)
     if san: fl += ['-fsanitize=' + san, '-fno-sanitize-recover=all']
     srcs = [os.path.join(repo, 'src', s) for s in LIBXRL]
-    objs = compile_many('clang-14', fl, srcs, sc.path('o_' + tag))
+    objs = compile_many(cc, fl, srcs, sc.path('o_' + tag))
     # the 19 MB table file: no sanitizer instrumentation needed for constant data, but keep ASan redzones on globals
     tfl = cflags(repo, bdir) + ['-O0', '-g0', '-w']
     if san and 'address' in san: tfl += ['-fsanitize=address']
     if san and 'thread' in san: tfl += ['-fsanitize=thread']
     o = sc.path('o_' + tag, 'xrayglob_inline.c.o')
-    run(['clang-14'] + tfl + ['-c', inline, '-o', o])
+    run([cc] + tfl + ['-c', inline, '-o', o])
     return objs + [o], fl
 
 def link(sc, objs, srcs, out, fl, libs=('-lm',), cc='clang-14'):
